@@ -53,7 +53,9 @@ class ChunkParser:
                 self.chunk = raw
                 raw = b''
             else:
-                self.size = int(line, 16)
+                # Chunk extensions (RFC 7230 section 4.1.1) follow the
+                # size after a semicolon and are not part of the size.
+                self.size = int(line.split(b';', 1)[0], 16)
                 self.state = chunkParserStates.WAITING_FOR_DATA
         elif self.state == chunkParserStates.WAITING_FOR_DATA:
             assert self.size is not None
